@@ -113,7 +113,7 @@ def run(O, P):
         w = k["witness"]
         if "main" in w["code"] or "result" in w["code"]:
             cs.append({"id": "finding-" + k["id"], "config": w.get("config") or vlib.default_config(), "calls": [{"code": w["code"], "file": "w.js"}], "opts": {}})
-    results = C.run_cases(cs, "model,classes,hygiene", "c01x")
+    results = C.run_cases(cs, "model,classes,hygiene,shapes", "c01x")
     jobs, meta = [], []
     for case, r, calls in results:
         cin, cout, m = calls[0]
@@ -143,6 +143,8 @@ def run(O, P):
             cls = "call-apply-nonstatic-path"
         elif any(k == "crossed" for k, _ in (m.get("out_hygiene") or [])):
             cls = "temps-cross-function-boundary"
+        elif "sum-operand-omitted" in (m.get("out_shapes") or []):
+            cls = "sum-operand-left-in-place-order"
         kk = [k for k in known if cls and k.get("class") == cls]
         if kk:
             seen_known.setdefault(kk[0]["id"], kk[0])
